@@ -100,7 +100,8 @@ def check(prog, res, tier):
             if e.kind == 'read' and e.data['file'] is f:
                 seen_c['reads'] += mode == 'inv'
                 nxt = next((x for x in evs[i + 1:] if (x.kind == 'setattr' and x.data['attr'] == 'buffer')
-                            or (x.kind == 'read' and x.data['file'] is f) or x.kind in ('leave', 'return')), None)
+                            or (x.kind == 'read' and x.data['file'] is f)
+                            or (x.kind == 'leave' and x.data.get('callee') == c05.READ)), None)   # helpers called by read() return earlier
                 appended = False
                 if nxt is not None and nxt.kind == 'setattr' and isinstance(nxt.data['value'], SeqV) and e.data['data'].segs:
                     b0 = e.data['data'].segs[0]
